@@ -418,6 +418,44 @@ class SReal(_Num):
         raise Unsupported("symbolic real forced to a concrete float: %s" % self.z)
 
 
+_TRIG = {}
+PI = z3.Real("PI")
+
+
+def trig(name, x):
+    """uninterpreted transcendental function applied to a real term; axioms are added by `trig_axioms`"""
+    if name not in _TRIG:
+        _TRIG[name] = z3.Function(name.upper(), z3.RealSort(), z3.RealSort())
+    e = eng()
+    zz = to_real(x).z if not isinstance(x, z3.ExprRef) else x
+    t = _TRIG[name](zz)
+    reg = e.ghost.setdefault("trig_terms", {})
+    reg.setdefault(name, [])
+    if not any(a.eq(zz) for a in reg[name]):
+        # monotonicity / range facts against every earlier argument of the same function (ground instances)
+        for a in reg[name]:
+            fa = _TRIG[name](a)
+            if name == "arccos":
+                e.pc.append(z3.Implies(z3.And(a >= -1, a <= 1, zz >= -1, zz <= 1), z3.And((a < zz) == (fa > t), (a == zz) == (fa == t))))
+        if name == "arccos":
+            e.pc.append(z3.Implies(z3.And(zz >= -1, zz <= 1), z3.And(t >= 0, t <= PI, (zz == 1) == (t == 0))))
+        if "pi" not in e.ghost:
+            e.ghost["pi"] = True
+            e.pc.append(z3.And(PI > z3.RealVal("3.14159"), PI < z3.RealVal("3.1416")))
+        reg[name].append(zz)
+    return SReal(t)
+
+
+def _sreal_method(name):
+    def m(self):
+        if name == "degrees":
+            return SReal(to_real(self).z * 180 / PI)
+        if name == "radians":
+            return SReal(to_real(self).z * PI / 180)
+        return trig(name, self)
+    return m
+
+
 def trunc_int(x):
     """Python int(x) for a real: truncation toward zero."""
     if isinstance(x, SInt):
@@ -547,6 +585,15 @@ class SBV:
         if self.signed:
             return self._bin(o, lambda a, b: a >> b)
         return self._bin(o, lambda a, b: z3.LShR(a, b))
+
+    def __rlshift__(self, o):
+        # int << sym  (e.g. 1 << i): exact only while no bit is shifted out, which is an obligation
+        zo, b, s = self._coerce(o)
+        r = zo << self._lhs(b)
+        if not eng().in_spec:
+            eng().prove("safety:shift-overflow", z3.And(z3.ULT(self._lhs(b), b), z3.LShR(r, self._lhs(b)) == zo),
+                        "Python int shift modelled in %d bits must not lose bits" % b)
+        return type(self)(r, b, s) if not isinstance(self, SPyInt) else SPyInt(r)
 
     def __floordiv__(self, o):
         zo, b, s = self._coerce(o)
@@ -751,3 +798,10 @@ def sym_bool(hint="b"):
 
 def sym_bv(hint="k", bits=64, signed=True):
     return SBV(fresh(z3.BitVecSort(bits), hint), bits, signed)
+
+
+# numpy object-dtype ufunc loops call the method of the same name on each element
+for _n in ("arccos", "arcsin", "cos", "sin", "sqrt", "degrees", "radians", "deg2rad", "rad2deg"):
+    _real = {"deg2rad": "radians", "rad2deg": "degrees"}.get(_n, _n)
+    setattr(SReal, _n, _sreal_method(_real))
+    setattr(SInt, _n, _sreal_method(_real))
